@@ -140,6 +140,7 @@ def get_atomic_sequence(xsd_type: Optional[XsdTypeProtocol],
             nonlocal namespaces
             if namespaces is None:
                 namespaces = {}
+            s = s.strip()  # the whitespace of xs:QName values is collapsed
             if ':' not in s:
                 # the default namespace has the key None in the nsmap of lxml
                 return value.__class__(namespaces.get('') or namespaces.get(None), s)
